@@ -128,7 +128,7 @@ inline std::string g_ipvfuture(Tape &t) {
 // host text as it appears in the URI (with brackets for literals); kind: 1 reg 2 ip4 3 ip6 4 future
 inline std::string g_host(Tape &t, int *kind = nullptr) {
   static const std::vector<std::string> regs = {"h", "example.com", "EXAMPLE.org", "Host", "a.b", "256.1.1.1", "01.2.3.4",
-                                                "1.2.3", "1.2.3.4.5", "1.2.3.4a", "ex%41mple", "ex%c3%a4", "h%3a", "x-y_z~"};
+                                                "1.2.3", "1.2.3.4.5", "1.2.3.4a", "ex%41mple", "ex%c3%a4", "h%3a", "x-y_z~", "v1.a", "vF.x"};
   int k = t.weighted({6, 2, 3, 3, 1});
   int kk = 1;
   std::string s;
@@ -173,9 +173,9 @@ inline std::string auth_text(const GenAuth &a) {
 enum SegFlavor { SEG_ANY = 0, SEG_NOPCTDOT = 1 /* no percent-encoded dot segments (C09) */ };
 inline std::string g_segment(Tape &t, int flavor = SEG_ANY) {
   static const std::vector<std::string> vocab = {"a", "", ".", "..", "b", "c", "a:b", "%2e", "%2E%2e", "%41", "%7e",
-                                                 "%3a", ";p", "@", "x.y", "..a", ".%2E", "d:", "%2F"};
+                                                 "%3a", ";p", "@", "x.y", "..a", ".%2E", "d:", "%2F", ":", "1:2", "%7E:x", "_k:v"};
   static const std::vector<std::string> vocab_nopctdot = {"a", "", ".", "..", "b", "c", "a:b", "%41", "%7e", "%3a",
-                                                          ";p", "@", "x.y", "..a", "d:", "%2F", "e", ":"};
+                                                          ";p", "@", "x.y", "..a", "d:", "%2F", "e", ":", "1:2", "_k:v"};
   if (t.chance(5, 6)) return t.pick(flavor == SEG_NOPCTDOT ? vocab_nopctdot : vocab);
   std::string s = g_run(t, 6, ":@", flavor != SEG_NOPCTDOT);
   return s;
@@ -340,13 +340,13 @@ inline u32s g_noise(Tape &t, bool wideExtras, int *arm = nullptr) {
 // G_pair: correlated (base, reference) and (source, base) pairs built from one
 // shared pool, so that "same scheme", "same host but other port", "path is a
 // prefix", "equal up to the last segment" ... all occur often.
-inline const std::vector<std::string> &pool_schemes() { static const std::vector<std::string> v = {"s", "t", "http", "S"}; return v; }
+inline const std::vector<std::string> &pool_schemes() { static const std::vector<std::string> v = {"s", "t", "http", "S", "svn+ssh"}; return v; }
 inline GenAuth g_pool_auth(Tape &t) {
   GenAuth a;
   // IP hosts come in groups that differ in one half / one octet only, and in spellings of one value
   static const std::vector<std::string> hosts = {"h", "g", "H", "", "1.2.3.4", "[::1]", "[0:0:0:0:0:0:0:1]", "[v1.a]", "h%41",
-                                                 "[::2]", "[1::1]", "1.2.3.5", "2.2.3.4", "[v1.b]", "[V1.a]", "[::1.2.3.4]", "hh"};
-  static const int kinds[] = {1, 1, 1, 1, 2, 3, 3, 4, 1, 3, 3, 2, 2, 4, 4, 3, 1};
+                                                 "[::2]", "[1::1]", "1.2.3.5", "2.2.3.4", "[v1.b]", "[V1.a]", "[::1.2.3.4]", "hh", "v1.a"};
+  static const int kinds[] = {1, 1, 1, 1, 2, 3, 3, 4, 1, 3, 3, 2, 2, 4, 4, 3, 1, 1};
   uint32_t i = t.below((uint32_t)hosts.size());
   a.host = hosts[i]; a.hostKind = kinds[i];
   a.hasUser = t.chance(1, 5);
@@ -400,10 +400,11 @@ inline GenUri g_ref(Tape &t, const GenUri &base, int *kind = nullptr, int flavor
     case 1:
       r.hasScheme = true; r.scheme = (base.hasScheme && base.scheme == "s") ? "t" : (t.coin() ? "s" : "X");
       // schemes that are *related* to the base's without being equal: extension, proper prefix, other letter case
-      if (base.hasScheme) switch (t.weighted({5, 2, 1, 1})) {
+      if (base.hasScheme) switch (t.weighted({5, 2, 1, 1, 2})) {
         case 1: r.scheme = base.scheme + (t.coin() ? "s" : "+x"); break;
         case 2: r.scheme = base.scheme.size() > 1 ? base.scheme.substr(0, base.scheme.size() - 1) : base.scheme + "0"; break;
         case 3: r.scheme = base.scheme; r.scheme[0] = (char)(r.scheme[0] ^ 0x20); break;
+        case 4: r.scheme = base.scheme.size() > 1 ? base.scheme : base.scheme + "tp"; r.scheme.back() = r.scheme.back() == 'q' ? 'r' : 'q'; break;  // same length, differs late
         default: break;
       }
       r.hasAuth = t.coin();
@@ -445,7 +446,7 @@ inline std::string join_segs(const std::vector<std::string> &v, bool rooted) {
   return p;
 }
 inline void g_source_base(Tape &t, GenUri *S, GenUri *B, int *klass, int flavor = SEG_ANY) {
-  static const std::vector<std::string> plain = {"a", "b", "c", "x", "d:", "a:b", "", "e.f", "%41"};
+  static const std::vector<std::string> plain = {"a", "b", "c", "x", "d:", "a:b", "", "e.f", "%41", "1:2", ":"};
   auto seg = [&]() -> std::string { return t.chance(17, 20) ? t.pick(plain) : g_segment(t, flavor); };
   GenUri b;
   b.hasScheme = true; b.scheme = t.pick(pool_schemes());
@@ -500,8 +501,8 @@ inline void g_source_base(Tape &t, GenUri *S, GenUri *B, int *klass, int flavor 
   b.path = (bs.empty() && b.hasAuth && t.coin()) ? std::string() : (bs.empty() && !brooted ? std::string() : join_segs(bs, brooted));
   s.path = (ss.empty() && s.hasAuth && t.coin()) ? std::string() : (ss.empty() && !srooted ? std::string() : join_segs(ss, srooted));
   s.hasQuery = t.chance(1, 4); if (s.hasQuery) s.query = t.coin() ? "q" : "";
-  b.hasQuery = t.chance(1, 4); if (b.hasQuery) b.query = t.coin() ? "q" : "p";
-  if (k == 5) { if (t.coin()) { s.hasQuery = true; s.query = "q"; b.hasQuery = false; } else { b.hasQuery = true; b.query = "q"; s.hasQuery = false; } }
+  b.hasQuery = t.chance(1, 4); if (b.hasQuery) b.query = t.chance(1, 3) ? "" : (t.coin() ? "q" : "p");
+  if (k == 5) { std::string q = t.chance(1, 3) ? "" : "q"; if (t.coin()) { s.hasQuery = true; s.query = q; b.hasQuery = false; } else { b.hasQuery = true; b.query = q; s.hasQuery = false; } }
   s.hasFrag = t.chance(1, 5); if (s.hasFrag) s.frag = "f";
   b.hasFrag = t.chance(1, 8); if (b.hasFrag) b.frag = "bf";
   if (k == 9) { if (t.coin()) s.hasScheme = false; if (t.coin()) b.hasScheme = false; if (s.hasScheme && b.hasScheme) b.hasScheme = false; }
